@@ -55,6 +55,9 @@ func genC09(r *core.Rng, id int) *Case {
 			defs = append(defs, tw)
 		}
 	}
+	if id%5 == 4 {
+		defs = append(defs, gen.FragImplClashDefs(r, s, "K")...)
+	}
 	return &Case{ID: fmt.Sprintf("n%d", id), Schema: s, SchemaFiles: map[string]string{"schema.graphql": s.SDL()}, Defs: defs,
 		Layout: gen.SingleFile(len(defs)), Cfg: gen.RandomCfg(r, s)}
 }
@@ -151,7 +154,11 @@ func RunC09(tier string, seed int64, outDir string, replay string) (*core.Result
 		}
 		if o.Class == "ok" {
 			for _, f := range CheckReadable(ex, o.Em) {
-				res.Fail(core.Failure{Case: c.ID, Class: "C09/type-does-not-carry-selection", What: f, Replay: c})
+				class := "C09/type-does-not-carry-selection"
+				if strings.Contains(f, "belongs to another selection") {
+					class = "C09/type-shared-with-a-larger-selection"
+				}
+				res.Fail(core.Failure{Case: c.ID, Class: class, What: f, Replay: c})
 			}
 			// alone vs together
 			together := declMap(o.Em)
